@@ -75,6 +75,8 @@ def gen_fan_model(rng: random.Random, clock: str, with_pre: bool = False):
     n_l = rng.randint(3, 6)
     n_et = rng.randint(1, 3)
     streams = [["a", rng.randint(1, 10 ** 9)], ["b", rng.randint(1, 10 ** 9)], ["c", rng.randint(1, 10 ** 9)]]
+    if rng.random() < 0.4:
+        streams[rng.randrange(3)][1] = 0          # 0 is a legal seed like any other
     sids = [0, 2] if clock in ("dur", "durmin") else [0, 1, 2]
     lv = [rng.randrange(n_et) for _ in range(n_l)]
 
@@ -165,6 +167,8 @@ def gen_fan_model(rng: random.Random, clock: str, with_pre: bool = False):
         stats.append([key, c06.KIND_OF_SID[sids[0]], sids[0]])
     model = {"prog": prog, "lst": lst, "subs": subs, "stats": stats, "streams": streams,
              "stream_mode": rng.choice(["new", "setseed"])}
+    if any(sd == 0 for _, sd in streams) and rng.random() < 0.7:
+        model["stream_mode"] = "new"              # MersenneTwister(0) is then constructed in construct_model
     if with_pre:
         # SimEvent objects built before initialize() (some even before the unrelated prior activity of the process)
         # and handed to schedule_event(event) from construct_model / handlers; they tie in time and priority with
